@@ -27,7 +27,7 @@ PASS_FIRST = {
     'std::result::Result::as_mut', 'std::ops::Deref::deref', 'std::ops::DerefMut::deref_mut',
     'std::convert::AsRef::as_ref', 'std::convert::AsMut::as_mut', 'std::borrow::Borrow::borrow',
     'std::clone::Clone::clone', 'std::borrow::ToOwned::to_owned', 'std::boxed::Box::new',
-    'std::sync::Arc::new', 'std::option::Option::unwrap', 'std::option::Option::expect',
+    'std::sync::Arc::new', 'std::rc::Rc::new', 'std::option::Option::unwrap', 'std::option::Option::expect',
     'std::result::Result::unwrap', 'std::result::Result::expect', 'std::result::Result::ok',
     'std::option::Option::take', 'std::option::Option::unwrap_or_default',
     'std::result::Result::unwrap_or_default', 'std::convert::identity',
